@@ -39,6 +39,7 @@ REWRITES = {
     'R1b': '`unreachable!(\"..\", args)` / `panic!(\"..\", args)` lose their message and become `unreachable!()` (the arm stays an obligation: it must be proved unreachable)',
     'R23': 'a field of type RwLock<T> is given the type T and `self.F.write().unwrap()` / `self.F.read().unwrap()` become `&mut self.F` / `&self.F` (receiver &self -> &mut self, R7): the lock guard held to the end of the block is the exclusive / shared borrow of the protected value; single-task semantics only, no claim about interleavings or lock poisoning',
     'R24': 'a provided (default-bodied) trait method is lifted out of its trait into a free generic function (`fn f(&mut self, ..)` of `trait T` -> `fn f<A: T>(vx_self: &mut A, ..)`, `Self` -> `A`, `self` -> `vx_self`) so that its contract can use spec functions that are generic over the trait (Verus rejects those inside the trait: cyclic definition); in the extracted trait declaration the method loses its body and is a required method; a verification of THE method as long as no implementor overrides it',
+    'R28': '`for V in MAP.values()` becomes `for (vx_k, V) in MAP.iter()` (the values of a map are the second components of its entries; vstd specifies hash_map::Iter, not hash_map::Values)',
     'R27': '`M.iter().any(F)` on a HashMap becomes `vx_map_any(&M, F)`, a declared function with the ASSUMED std contract: true iff F answers true for some entry (each entry handed to F as a pair of references); a closure that takes the pair as a tuple pattern gets a named parameter and `let PATTERN = parameter;` first in its body',
     'R26': '`E.iter_mut().for_each(F)` becomes `vx_for_each_mut(&mut E, F)`, a declared function with the ASSUMED std contract: F runs once on every element, in place, the length is kept',
     'R25': '`while let PAT = EXPR { BODY }` becomes `loop { match EXPR { PAT => { BODY } _ => { break; } } }` (definitional desugaring; Verus has no while-let)',
@@ -519,7 +520,7 @@ pub assume_specification [<{q} as PartialEq>::eq] (a: &{q}, b: &{q}) -> (r: bool
     # ---------- functions ----------
     def fn(self, path, impl, fn, requires=(), ensures=(), loops=None, ghost=(), subst=(), trait=None,
            erase_async=False, mut_self=False, ret_name='r', decreases=None, keep_macros=(), external_body=False,
-           let_chains=True, fmt=True, hash_loops=(), vis='pub', recommends=(), trait_full=None, keep_arms=None, as_inherent=False, copied_loops=(), eta=(), closures=None, continue_guards=(), deref_loops=(), attrs=(), clone_loops=(), into_values_loops=(), unlock=(), lift_default=None, for_each_mut=False, map_any=None):
+           let_chains=True, fmt=True, hash_loops=(), vis='pub', recommends=(), trait_full=None, keep_arms=None, as_inherent=False, copied_loops=(), eta=(), closures=None, continue_guards=(), deref_loops=(), attrs=(), clone_loops=(), into_values_loops=(), unlock=(), lift_default=None, for_each_mut=False, map_any=None, values_loops=()):
         """Extract one fn verbatim and splice its contract.  Returns a list of Seg (to be put in an impl block).
         requires/ensures: list of (name, text).  loops: {ordinal: dict(invariant=[(name,text)], decreases=text, iter='vx_it')}
         ghost: list of (anchor, text) with anchor in ('body_start',), ('body_end',), ('loop_start',k), ('loop_end',k),
@@ -886,6 +887,24 @@ pub assume_specification [<{q} as PartialEq>::eq] (a: &{q}, b: &{q}) -> (r: bool
             edits.append((s + len(ex[:m19.start()].encode()), t, [Seg('.values()')]))
             edits.append((L['body'][0] + 1, L['body'][0] + 1, [Seg(f' let {pat} = vx_v{k}.clone(); ')]))
             self._rw('R19')
+        # R28: `for V in MAP.values()` -> `for (vx_kN, V) in MAP.iter()` (the values of a map are the second components of its entries,
+        # in the same order; vstd specifies hash_map::Iter but says nothing about the elements of hash_map::Values)
+        for k in values_loops:
+            if k >= len(e['loops']):
+                raise LostAnchor(f'{fn}: loop #{k} not found ({len(e["loops"])} loops)')
+            L = e['loops'][k]
+            s, t = L['expr']
+            ex = src[s:t].decode()
+            m28 = re.search(r'\s*\.values\(\)\s*$', ex)
+            pat = src[L['pat'][0]:L['pat'][1]].decode().strip()
+            if L['kind'] != 'for' or not re.fullmatch(r'[A-Za-z_][A-Za-z0-9_]*', pat):
+                raise ToolLimit(f'{fn}: R28 wants `for V in MAP.values()` at loop {k}')
+            if not m28:
+                # already spelled `.iter()` with a pair pattern, or something else: leave it alone
+                continue
+            edits.append((L['pat'][0], L['pat'][1], [Seg(f'(vx_k{k}, {pat})')]))
+            edits.append((s + len(ex[:m28.start()].encode()), t, [Seg('.iter()')]))
+            self._rw('R28')
         # R1 / R2
         for m in e['macros']:
             nm = m['name']
